@@ -1,3 +1,349 @@
+//! yv-g17: binding of spec/ConcSelect.tla to yash-env's `Concurrent<S>`.
+//!
+//!   replay --in gen.ndjson --out mism.ndjson --np N --ns N --nt N --base "1,2" [--threads T]
+//!       every line is a history printed by TLC (Gen_ConcSelect_*.cfg): the task
+//!       scripts and the external schedule are extracted from it, it is run on the
+//!       real Concurrent<Spy<VirtualSystem>>, and every event (with the projection
+//!       of the world after it) is compared with the one the specification
+//!       prescribes.
+//!   random --n N --out trace.ndjson [--threads T]
+//!       seeded random larger systems under a random driver with random external
+//!       events; the events are recorded for Trace_ConcSelect.
+//!   one --in case.json --out trace.ndjson
+//!       re-run one random system (replay of a recorded violation).
+mod cmp;
+mod ctx;
+mod run;
+mod spy;
+
+use ctx::{Ev, Mode};
+use rand::rngs::StdRng;
+use rand::{Rng, SeedableRng};
+use run::{Op, World};
+use serde_json::{Value, json};
+use std::collections::BTreeMap;
+use std::io::{BufRead, Write};
+use yvcommon::util::{opt, opt_usize, open_in, open_out, quiet_panics, seed};
+
+fn parse_base(s: &str) -> Vec<i64> {
+    s.split(',').filter(|x| !x.is_empty()).map(|x| x.parse().unwrap()).collect()
+}
+
+struct Stats {
+    histories: u64,
+    events: u64,
+    kinds: BTreeMap<String, u64>,
+    nontrivial: u64,
+    mismatches: u64,
+}
+
+impl Stats {
+    fn new() -> Stats {
+        Stats { histories: 0, events: 0, kinds: BTreeMap::new(), nontrivial: 0, mismatches: 0 }
+    }
+    fn add(&mut self, o: &Stats) {
+        self.histories += o.histories;
+        self.events += o.events;
+        self.nontrivial += o.nontrivial;
+        self.mismatches += o.mismatches;
+        for (k, v) in &o.kinds {
+            *self.kinds.entry(k.clone()).or_insert(0) += v;
+        }
+    }
+    fn note(&mut self, log: &[Ev]) {
+        self.events += log.len() as u64;
+        let mut nt = false;
+        for e in log {
+            let k = match e.e.as_str() {
+                "rd" | "wr" | "sr" | "res" | "se" => format!("{}:{}", e.e, e.r),
+                "sc" => format!("sc:{}{}", if e.a == -1 { "block" } else if e.a == 0 { "poll" } else { "timeout" }, if e.b == 1 { "+mask" } else { "" }),
+                "op" => format!("op:{}", e.r),
+                _ => e.e.clone(),
+            };
+            *self.kinds.entry(k).or_insert(0) += 1;
+            if e.e == "se" && !e.x.is_empty() {
+                nt = true;
+            }
+        }
+        if nt {
+            self.nontrivial += 1;
+        }
+    }
+}
+
+fn scripts_of(h: &[Ev], nt: usize) -> Vec<Vec<Op>> {
+    let mut s = vec![vec![]; nt + 1];
+    for e in h {
+        if e.e == "op" {
+            s[e.t as usize].push(Op { k: e.r.clone(), a: e.a, b: e.b });
+        }
+    }
+    s
+}
+
+/// Were two operations on the descriptor whose O_NONBLOCK flag deviates in
+/// flight before event `index` (the shape of finding G17-F1)?
+fn overlap_at(h: &[Ev], index: usize, b: &ctx::Mismatch, np: usize, nt: usize) -> bool {
+    let (Some(e), Some(g)) = (&b.expected, &b.got) else { return false };
+    if e.w.len() != g.w.len() {
+        return false;
+    }
+    let Some(j) = (0..e.w.len()).find(|&j| e.w[j] != g.w[j]) else { return false };
+    if j < 1 + 3 * np || j >= 1 + 5 * np {
+        return false;
+    }
+    let fd = 3 + (j - (1 + 3 * np)) as i64;
+    let mut cur: Vec<Option<i64>> = vec![None; nt + 1];
+    for ev in &h[..index.min(h.len())] {
+        match ev.e.as_str() {
+            "op" => cur[ev.t as usize] = if matches!(ev.r.as_str(), "R" | "W" | "WA") { Some(ev.a) } else { None },
+            "res" | "cancel" => cur[ev.t as usize] = None,
+            _ => {}
+        }
+    }
+    cur.iter().filter(|c| **c == Some(fd)).count() >= 2
+}
+
+fn replay_one(h: Vec<Ev>, np: usize, ns: usize, nt: usize, base: &[i64]) -> (Vec<Ev>, Option<ctx::Mismatch>) {
+    let scripts = scripts_of(&h, nt);
+    let mut w = World::new(np, ns, nt, base, Mode::Replay { h, i: 0 });
+    for t in 1..=nt {
+        w.tasks[t].ops = scripts[t].clone();
+    }
+    w.replay();
+    let log = w.ctx.log.borrow().clone();
+    let bad = w.ctx.bad.borrow().clone();
+    (log, bad)
+}
+
+fn cmd_replay(args: &[String]) {
+    let np = opt_usize(args, "--np", 1);
+    let ns = opt_usize(args, "--ns", 1);
+    let nt = opt_usize(args, "--nt", 2);
+    let base = parse_base(opt(args, "--base").unwrap_or(""));
+    let threads = opt_usize(args, "--threads", 4).max(1);
+    let cfg = opt(args, "--cfg").unwrap_or("").to_string();
+    let lines: Vec<String> = open_in(args).lines().map(|l| l.unwrap()).filter(|l| !l.trim().is_empty()).collect();
+    let chunk = lines.len().div_ceil(threads).max(1);
+    let mut total = Stats::new();
+    let mut out = open_out(args);
+    let results: Vec<(Stats, Vec<Value>)> = std::thread::scope(|sc| {
+        let hs: Vec<_> = lines
+            .chunks(chunk)
+            .map(|part| {
+                let base = base.clone();
+                let cfg = cfg.clone();
+                sc.spawn(move || {
+                    quiet_panics();
+                    let mut st = Stats::new();
+                    let mut mism = vec![];
+                    for line in part {
+                        let v: Value = serde_json::from_str(line).expect("history line");
+                        let h: Vec<Ev> = v.as_array().unwrap().iter().map(Ev::from_tuple).collect();
+                        let (log, bad) = replay_one(h.clone(), np, ns, nt, &base);
+                        st.histories += 1;
+                        st.note(&log);
+                        if let Some(b) = bad {
+                            st.mismatches += 1;
+                            let opsig: Vec<String> = h.iter().filter(|e| e.e == "op").map(|e| format!("{}{}:{}{},{}", "t", e.t, e.r, e.a, e.b)).collect();
+                            mism.push(json!({
+                                "key": {"dir": "spec->impl", "cfg": cfg, "symptom": b.symptom, "ops": opsig.join(" "),
+                                        "overlap": overlap_at(&h, b.index, &b, np, nt)},
+                                "index": b.index,
+                                "expected": b.expected.as_ref().map(|e| e.tuple()),
+                                "got": b.got.as_ref().map(|e| e.tuple()),
+                                "history": v,
+                                "real": log.iter().map(|e| e.tuple()).collect::<Vec<_>>(),
+                                "np": np, "ns": ns, "nt": nt, "base": base,
+                            }));
+                        }
+                    }
+                    (st, mism)
+                })
+            })
+            .collect();
+        hs.into_iter().map(|h| h.join().expect("thread")).collect()
+    });
+    for (st, mism) in results {
+        total.add(&st);
+        for m in mism {
+            writeln!(out, "{}", m).unwrap();
+        }
+    }
+    out.flush().unwrap();
+    println!(
+        "{}",
+        json!({"histories": total.histories, "events": total.events, "kinds": total.kinds, "nontrivial": total.nontrivial, "mismatches": total.mismatches})
+    );
+}
+
+pub const RNT: usize = 8;
+pub const RNP: usize = 3;
+pub const RNS: usize = 3;
+
+fn random_scripts(rng: &mut StdRng) -> (usize, Vec<Vec<Op>>, Vec<i64>) {
+    let nt = rng.gen_range(2..=RNT);
+    let mut scripts = vec![vec![]; RNT + 1];
+    // 12 operations or so, spread over the tasks
+    let mut budget: usize = 12;
+    for t in 1..=nt {
+        let n = rng.gen_range(1..=3).min(budget.max(1));
+        budget = budget.saturating_sub(n);
+        for _ in 0..n {
+            let c = rng.gen_range(0..100);
+            let p = rng.gen_range(1..=RNP as i64);
+            let op = if c < 25 {
+                Op { k: "R".into(), a: 2 * p + 1, b: rng.gen_range(1..=2) }
+            } else if c < 35 {
+                Op { k: "W".into(), a: 2 * p + 2, b: rng.gen_range(1..=3) }
+            } else if c < 47 {
+                Op { k: "WA".into(), a: 2 * p + 2, b: rng.gen_range(1..=4) }
+            } else if c < 62 {
+                Op { k: "S".into(), a: rng.gen_range(0..=3), b: 0 }
+            } else if c < 77 {
+                Op { k: "G".into(), a: 0, b: 0 }
+            } else if c < 90 {
+                Op { k: "D".into(), a: rng.gen_range(1..=RNS as i64), b: rng.gen_range(1..=2) }
+            } else if c < 95 {
+                Op { k: "C".into(), a: rng.gen_range(3..3 + 2 * RNP as i64), b: 0 }
+            } else {
+                Op { k: "Y".into(), a: 0, b: 0 }
+            };
+            scripts[t].push(op);
+        }
+    }
+    let mut base = vec![];
+    for s in 1..=RNS as i64 {
+        if rng.gen_bool(0.3) {
+            base.push(s);
+        }
+    }
+    (nt, scripts, base)
+}
+
+fn random_one(sd: u64, idx: u64) -> Vec<Ev> {
+    let mut rng = StdRng::seed_from_u64(sd.wrapping_mul(0x9E37_79B9_7F4A_7C15).wrapping_add(idx));
+    let (_nt, scripts, base) = random_scripts(&mut rng);
+    let hook_rng = StdRng::seed_from_u64(rng.r#gen());
+    let pext = [0.05, 0.15, 0.3][rng.gen_range(0..3)];
+    let mut w = World::new(RNP, RNS, RNT, &base, Mode::Random { rng: hook_rng, pext, left: 10 });
+    for t in 1..=RNT {
+        w.tasks[t].ops = scripts[t].clone();
+        if scripts[t].is_empty() {
+            w.tasks[t].state = run::TS::Done; // not part of this system
+        }
+    }
+    let mut spur = 3;
+    w.random_run(&mut rng, 60, &mut spur);
+    let mut log = vec![Ev::new("reset", 0, idx as i64, sd as i64, "").x(base.clone())];
+    log[0].w = vec![];
+    log.extend(w.ctx.log.borrow().iter().cloned());
+    log
+}
+
+fn cmd_random(args: &[String]) {
+    let n = opt_usize(args, "--n", 1000) as u64;
+    let threads = opt_usize(args, "--threads", 4).max(1) as u64;
+    let sd = seed();
+    let mut out = open_out(args);
+    let per = n.div_ceil(threads);
+    let results: Vec<(Stats, Vec<String>)> = std::thread::scope(|sc| {
+        let hs: Vec<_> = (0..threads)
+            .map(|k| {
+                sc.spawn(move || {
+                    quiet_panics();
+                    let mut st = Stats::new();
+                    let mut lines = vec![];
+                    for idx in (k * per)..((k + 1) * per).min(n) {
+                        let log = random_one(sd, idx);
+                        st.histories += 1;
+                        st.note(&log);
+                        for e in &log {
+                            lines.push(e.record().to_string());
+                        }
+                    }
+                    (st, lines)
+                })
+            })
+            .collect();
+        hs.into_iter().map(|h| h.join().expect("thread")).collect()
+    });
+    let mut total = Stats::new();
+    for (st, lines) in results {
+        total.add(&st);
+        for l in lines {
+            writeln!(out, "{}", l).unwrap();
+        }
+    }
+    out.flush().unwrap();
+    println!(
+        "{}",
+        json!({"runs": total.histories, "events": total.events, "kinds": total.kinds, "nontrivial": total.nontrivial})
+    );
+}
+
+fn cmd_one(args: &[String]) {
+    quiet_panics();
+    let mut s = String::new();
+    open_in(args).read_to_string(&mut s).unwrap();
+    let v: Value = serde_json::from_str(&s).expect("case");
+    let mut out = open_out(args);
+    if let Some(h) = v.get("history") {
+        let h: Vec<Ev> = h.as_array().unwrap().iter().map(Ev::from_tuple).collect();
+        let base: Vec<i64> = v["base"].as_array().unwrap().iter().map(|x| x.as_i64().unwrap()).collect();
+        let (log, bad) = replay_one(h, v["np"].as_u64().unwrap() as usize, v["ns"].as_u64().unwrap() as usize, v["nt"].as_u64().unwrap() as usize, &base);
+        for e in &log {
+            writeln!(out, "{}", e.tuple()).unwrap();
+        }
+        out.flush().unwrap();
+        match bad {
+            Some(b) => println!("{}", json!({"mismatch": true, "symptom": b.symptom, "index": b.index, "expected": b.expected.map(|e| e.tuple()), "got": b.got.map(|e| e.tuple())})),
+            None => println!("{}", json!({"mismatch": false})),
+        }
+    } else {
+        let log = random_one(v["seed"].as_u64().unwrap(), v["idx"].as_u64().unwrap());
+        for e in &log {
+            writeln!(out, "{}", e.record()).unwrap();
+        }
+        out.flush().unwrap();
+        println!("{}", json!({"events": log.len()}));
+    }
+}
+
+/// Demonstration of finding G17-F1 on the real code (prints the real events).
+fn cmd_f1demo() {
+    quiet_panics();
+    let mut w = World::new(1, 1, 2, &[], Mode::Plain);
+    for t in 1..=2 {
+        w.tasks[t].ops = vec![Op { k: "R".into(), a: 3, b: 1 }];
+    }
+    w.poll_task(1);
+    w.poll_task(2);
+    let x = Ev::new("xw", 0, 1, 1, "");
+    w.ctx.apply_ext(&x).unwrap();
+    w.ctx.emit(x);
+    w.select(false, None);
+    w.poll_task(1);
+    w.poll_task(2);
+    let x = Ev::new("xw", 0, 1, 1, "");
+    w.ctx.apply_ext(&x).unwrap();
+    w.ctx.emit(x);
+    println!("woken(2) directly by the pipe, not by select: {}", w.woken(2));
+    for e in w.ctx.log.borrow().iter() {
+        println!("{}", e.tuple());
+    }
+}
+
 fn main() {
-    println!("stub");
+    let args: Vec<String> = std::env::args().skip(1).collect();
+    match args.first().map(|s| s.as_str()) {
+        Some("f1demo") => cmd_f1demo(),
+        Some("replay") => cmd_replay(&args[1..]),
+        Some("random") => cmd_random(&args[1..]),
+        Some("one") => cmd_one(&args[1..]),
+        _ => {
+            eprintln!("usage: yv-g17 replay|random|one ...");
+            std::process::exit(2);
+        }
+    }
 }
